@@ -17,7 +17,7 @@ use sos_vault::{AccessPoint, SecretAccess, Vault};
 pub const META: PropertyMeta = PropertyMeta {
     id: "C12",
     level: "exploration",
-    rule: "proptest-generated content history (1..15 account-level ops of the C01 set incl. flag, name and description edits, deletes and moves; all secret kinds) followed by a generated sequence of 1..4 rewrites drawn with repetition from {compact_folder, compact_account, change_folder_password, change_account_password, change_cipher(cipher,kdf)} on a backend x cipher x KDF cell; 0..2 further content ops (incl. folder create / delete) are applied after every rewrite without a re-login in between. After every rewrite: the account still serves exactly the model (C01 oracle), replay == memory == mirror == model for every folder (C02 oracle), a rewritten folder's log is one CreateVault plus one CreateSecret per live secret, the old folder password no longer unlocks the persisted vault while the delegated one does, no AeadPack in the folder's log or persisted vault decrypts under the old derived key, and (file system) none of the pre-change ciphertext byte strings occurs in any file of that folder; at the end a fresh instance signs in with the current account password, serves the model, and sign-in with a replaced account password fails. Non-trivial = the content history changed flags or a description and deleted or moved a secret before the rewrites. Distinct = distinct case.",
+    rule: "proptest-generated content history (1..15 account-level ops of the C01 set incl. flag, name and description edits, deletes and moves; all secret kinds) followed by a generated sequence of 1..4 rewrites drawn with repetition from {compact_folder, compact_account, change_folder_password, change_account_password, change_cipher(cipher,kdf)} on a backend x cipher x KDF cell; 0..2 further content ops (incl. folder create / delete) are applied after every rewrite without a re-login in between. Sub-check key-changes-with-folder-churn: 2..3 user folders and 1..3 secrets, then 2..5 key operations (change_folder_password, change_account_password, compact_folder) with 0..2 folder deletions / creations / secret creations after each, no re-login in between (non-trivial = a folder password change, later a folder deletion, later an account password change). After every rewrite: the account still serves exactly the model (C01 oracle), replay == memory == mirror == model for every folder (C02 oracle), a rewritten folder's log is one CreateVault plus one CreateSecret per live secret, the old folder password no longer unlocks the persisted vault while the delegated one does, no AeadPack in the folder's log or persisted vault decrypts under the old derived key, and (file system) none of the pre-change ciphertext byte strings occurs in any file of that folder; at the end a fresh instance signs in with the current account password, serves the model, and sign-in with a replaced account password fails. Non-trivial = the content history changed flags or a description and deleted or moved a secret before the rewrites. Distinct = distinct case.",
     assumptions: &[
         "sqlite is checked on the logical rows of the folder only (free pages / WAL are the storage engine's business)",
         "leftover-ciphertext scan on the file system covers files in the vaults directory whose name starts with the folder id (vault, event log, snapshots)",
@@ -298,9 +298,64 @@ fn case_strategy(max_ops: usize) -> impl Strategy<Value = Case> {
         .prop_map(|(history, rewrites, between)| Case { history, rewrites, between })
 }
 
+/// Key changes mixed with folder churn: several user folders, then password changes (folder and
+/// account) with folder deletions / creations in between and no re-login - the identity folder
+/// gains, loses and re-orders entries while keys change.
+fn churn_strategy() -> impl Strategy<Value = Case> {
+    use crate::engine_acct::name_strategy;
+    use crate::secrets::spec_strategy;
+    let folder_op = || {
+        prop_oneof![
+            3 => any::<u16>().prop_map(|folder| Op::DeleteFolder { folder }),
+            2 => (name_strategy(), 0u8..8).prop_map(|(name, flags)| Op::CreateFolder { name, flags }),
+            2 => (any::<u16>(), spec_strategy()).prop_map(|(folder, spec)| Op::CreateSecret { folder, spec }),
+        ]
+    };
+    let key_op = || {
+        prop_oneof![
+            4 => (any::<u16>(), "[a-z]{4,10}").prop_map(|(folder, password)| Op::ChangeFolderPassword { folder, password }),
+            3 => "[a-z]{4,10}".prop_map(|password| Op::ChangeAccountPassword { password }),
+            1 => any::<u16>().prop_map(|folder| Op::CompactFolder { folder }),
+        ]
+    };
+    (
+        crate::engine_acct::cfg_strategy(),
+        proptest::collection::vec((name_strategy(), 0u8..8), 2..4),
+        proptest::collection::vec((any::<u16>(), spec_strategy()), 1..4),
+        proptest::collection::vec(key_op(), 2..6),
+        proptest::collection::vec(proptest::collection::vec(folder_op(), 0..3), 6),
+    )
+        .prop_map(|(cfg, folders, secrets, rewrites, between)| {
+            let mut ops: Vec<Op> = folders.into_iter().map(|(name, flags)| Op::CreateFolder { name, flags }).collect();
+            ops.extend(secrets.into_iter().map(|(folder, spec)| Op::CreateSecret { folder, spec }));
+            Case { history: History { cfg, ops }, rewrites, between }
+        })
+}
+
 fn run(shard: &Shard, rep: &mut Report) {
     let t = shard.tier;
     drive(shard, rep, "rewrites", shard.share(t.pick(150, 2_500)), case_strategy(t.pick(15, 30)), |c| check_case(c));
+    drive(shard, rep, "key-changes-with-folder-churn", shard.share(t.pick(96, 1_600)), churn_strategy(), |c| {
+        let (mut info, r) = check_case(c);
+        // non-trivial here: a folder password change, later a folder deletion, later an account
+        // password change (the identity folder loses an entry between two key changes)
+        let mut stage = 0;
+        for (i, op) in c.rewrites.iter().enumerate() {
+            if stage == 0 && matches!(op, Op::ChangeFolderPassword { .. }) {
+                stage = 1;
+            } else if stage == 2 && matches!(op, Op::ChangeAccountPassword { .. }) {
+                stage = 3;
+            }
+            if stage == 1 && c.between.get(i).map(|b| b.iter().any(|o| matches!(o, Op::DeleteFolder { .. }))).unwrap_or(false) {
+                stage = 2;
+            }
+        }
+        info.nontrivial = stage == 3;
+        if stage == 3 {
+            info.class("folder-password-change/folder-delete/account-password-change");
+        }
+        (info, r)
+    });
 }
 
 fn replay(_shard: &Shard, _sub: &str, case: &Value) -> CheckResult {
